@@ -54,7 +54,7 @@ class Modes(Stage):
         data = text.encode('utf-8').replace('\ue000'.encode('utf-8'), b'\xff')
         return dict(text=text, chunks=[gen_chunks(d, data), gen_chunks(d, data)], exit=d.choice([0, 0, 1, 2, 7, 99, 127, 255, d.int(0, 255)]),
                     argv=[d.choice(ARGS) for _ in range(d.int(0, 5))], marker=d.int(0, 9999), supress=d.chance(0.2), filter=d.choice([None, None, 'wl_display', '* ! .bind']),
-                    linger=d.choice([0, 0, 0, 0, 0, 0, 0, 1.3]), nmsg=len(specs), hashseeds=[d.int(0, 4000) for _ in range(4)], exe=d.choice([None, None, None, 'child prog', 'a "b" c', 'back\\slash', 'x y z']), brk=d.choice([None, None, None, '.sync', 'wl_registry, wl_display', '*', 'wl_display ! .sync', '.bind']), parent_wayland_debug=d.choice([None, None, '1', 'client', 'server', '0', '']))
+                    linger=d.choice([0, 0, 0, 0, 0, 0, 0, 1.3]), slow_pipe=d.choice([None, None, None, None, None, None, [1.4, 0.0], [0.0, 1.2], [1.3, 0.3]]), nmsg=len(specs), hashseeds=[d.int(0, 4000) for _ in range(4)], exe=d.choice([None, None, None, 'child prog', 'a "b" c', 'back\\slash', 'x y z']), brk=d.choice([None, None, None, '.sync', 'wl_registry, wl_display', '*', 'wl_display ! .sync', '.bind']), parent_wayland_debug=d.choice([None, None, '1', 'client', 'server', '0', '']))
 
     def execute(self, case):
         res = Result()
@@ -79,7 +79,12 @@ class Modes(Stage):
             # unless set), which must not show in the display
             hs = [dict(PYTHONHASHSEED=str(x)) for x in (case.get('hashseeds') or [0, 0, 0, 0])]
             rc_f, out_f, err_f = cli.run_main(opts + ['-l', log], stdin=b'q\n', extra_env=hs[0])
-            rc_p, out_p, err_p = cli.run_main(opts + ['-p'], stdin=data, extra_env=hs[1])
+            if case.get('slow_pipe'):
+                # the producer at the other end of the pipe starts late and pauses mid-stream (in the middle of a line)
+                cut = len(data) // 2
+                rc_p, out_p, err_p = cli.run_main_slow_stdin(opts + ['-p'], [(data[:cut], case['slow_pipe'][0]), (data[cut:], case['slow_pipe'][1])], extra_env=hs[1])
+            else:
+                rc_p, out_p, err_p = cli.run_main(opts + ['-p'], stdin=data, extra_env=hs[1])
             res.evals += 2
             if rc_f is None or rc_p is None:
                 res.label('timeout(inconclusive)')      # a slow run is never a violation
@@ -160,6 +165,7 @@ class Modes(Stage):
         if not case['text'].endswith('\n'): res.label('no-final-newline')
         if any(ord(c) > 127 for c in case['text']): res.label('multi-byte')
         if '\ue000' in case['text']: res.label('undecodable-byte-in-chatter')
+        if case.get('slow_pipe'): res.label('slow-producer-on-the-pipe')
         if case.get('brk'): res.label('with -b')
         if case.get('exe') and not case['argv']: res.label('program-is-one-word')
         if '\r' in case['text']: res.label('carriage-return-in-chatter')
